@@ -22,7 +22,7 @@ def dom_heuristic_ensures(kmax):
     ens = [
         ("C09.height", f"{T1} > {T0} and {T1} <= {T0} + {kmax}"),
         ("C09.nonempty", f"forall(l, {T0}, {T1} + 1, {S}[l, dom_idx, MIN] <= {S}[l, dom_idx, MAX] and {lo0} <= {S}[l, dom_idx, MIN] and {S}[l, dom_idx, MAX] <= {hi0})"),
-        ("C09.cover", f"forall(v, {lo0}, {hi0} + 1, exists(l, {T0}, {T1} + 1, {inl('l', 'v')}))"),
+        ("C09.cover", f"forall(v, {lo0}, {hi0} + 1, exists(l, {T0}, {T1} + 1, {inl('l', 'trig(v)')}))"),
         ("C09.disjoint", f"forall(l, {T0}, {T1} + 1, forall(l2, l + 1, {T1} + 1, {S}[l, dom_idx, MAX] < {S}[l2, dom_idx, MIN] or {S}[l2, dom_idx, MAX] < {S}[l, dom_idx, MIN]))"),
         ("C09.others", f"forall(l, {T0}, {T1} + 1, forall(d, 0, D, implies(d != dom_idx, {S}[l, d, MIN] == {S0}[{T0}, d, MIN] and {S}[l, d, MAX] == {S0}[{T0}, d, MAX])))"),
         ("C09.below", f"forall(l, 0, {T0}, lvl_same({S}, {S0}, l, D))"),
